@@ -134,6 +134,15 @@ void* operator new(size_t n) { void* p = malloc(n ? n : 1); if (!p) throw std::b
 void* operator new[](size_t n) { void* p = malloc(n ? n : 1); if (!p) throw std::bad_alloc(); return p; }
 void operator delete(void* p) noexcept { if (p && g_nreg.load() > 0 && noteDelete(p)) return; free(p); }
 void operator delete[](void* p) noexcept { free(p); }
+// the sized and nothrow variants are replaced too (the aligned ones are left alone as a consistent pair): with a
+// sanitizer runtime a variant left to the runtime would pair the runtime's allocator with the malloc/free used
+// above (libprotobuf calls the sized delete: alloc-dealloc-mismatch in its static initialisers, ASan aborts at start-up)
+void operator delete(void* p, size_t) noexcept { operator delete(p); }
+void operator delete[](void* p, size_t) noexcept { operator delete[](p); }
+void* operator new(size_t n, const std::nothrow_t&) noexcept { return malloc(n ? n : 1); }
+void* operator new[](size_t n, const std::nothrow_t&) noexcept { return malloc(n ? n : 1); }
+void operator delete(void* p, const std::nothrow_t&) noexcept { operator delete(p); }
+void operator delete[](void* p, const std::nothrow_t&) noexcept { operator delete[](p); }
 
 class TagClosure : public google::protobuf::Closure {
  public:
